@@ -734,11 +734,11 @@ func c41(sum *lib.Summary) {
 	g := NewGen(c.rng)
 	n := 170
 	if thorough() {
-		n = 2000
+		n = 1500
 	}
 	for i := 0; i < n; i++ {
 		v := g.Value()
-		c.noModel = i >= 600
+		c.noModel = i >= 350
 		c.roundTrip(v, "generated", "", true)
 		// type IDs of types of the universe
 		if i%2 == 0 {
